@@ -1,7 +1,7 @@
 (* C06 correspondence cases: a mapping set, two namespaces, a super-class provider and a list
    of queries, each with what the implementation answered. *)
 From FB Require Export C06.Model.
-From FB Require Import C06.Theory2 C06.Theory3 C06.Theory4.
+From FB Require Import C06.Theory2 C06.Theory3 C06.Theory4 C06.Theory5.
 
 Definition key3 := (str * (str * str))%type.   (* class, (name, descriptor) *)
 
@@ -27,14 +27,17 @@ Inductive case :=
     (* map_desc through a hand-written ARemapper whose map_class_fail is the table T *)
 | CA (M : mappings) (from to : N) (qs : list query)
     (* Mappings::remapper_a(from, to) and queries against it *)
-| CB (hyp : bool) (M : mappings) (from to : N) (ps : list inh) (qa : list query) (built : bool) (qs : list query)
+| CB (hyp coh : bool) (M : mappings) (from to : N) (ps : list inh) (qa : list query) (built : bool) (qs : list query)
      (ps' : list inh) (rts : list rtq).
     (* ps: the entry lists of the Vec<JarSuperProv>, one list per provider (the search sees their
        concatenation).  qa: answers of Mappings::remapper_a(from, to); then
        Mappings::remapper_b(from, to, &ps), built = false when it returned Err, and the answers to qs.
        hyp = true: the generator claims the world satisfies the decidable hypotheses of the theorems
-       (rows_valid, tables_inj in both directions, names_valid); the model re-checks them, and for
-       every world that the traversal from every provider key is bounded by the default fuel.
+       (acyclic provider, rows_valid, tables_inj in both directions, names_valid); the model re-checks them.
+       coh = true: the harness' own evaluation says the world is inside the structural hypothesis of
+       C06_field_desc_coherent / C06_method_desc_coherent (complete_world); the model re-checks that too.
+       Providers of other worlds may be cyclic: the search then answers Err where it meets a class that is
+       already on its path (map_member_fail_p), in the implementation and in the model alike.
        ps': what JarSuperProv::remap(forward remapper, ps) returned, per provider; rts: member
        queries sent X -> Y through the forward remapper and the answer sent Y -> X through
        Mappings::remapper_b(to, from, &ps'), with both answers (empty when a remapper was not built) *)
@@ -96,17 +99,19 @@ Definition check_rt (M : mappings) (from to : N) (R : bremap) (ps ps' : list inh
     | Err => false
     | Ok R' =>
         list_eqb inh_eqb mps ps' &&
-        forallb (fun e => bounded (default_fuel ih') ih' (fst e)) ih' &&
         forallb (fun q => match q with RT meth inside o k there back =>
           res_eqb key3_eqb (if meth then map_method_ref_obj R ih o k else map_field_ref R ih o k) there &&
           match there with
           | Ok (c', k') => res_eqb key3_eqb (if meth then map_method_ref_obj R' ih' c' k' else map_field_ref R' ih' c' k') back
           | Err => match back with Err => true | Ok _ => false end
           end &&
-          (negb inside ||
-             (world && (if meth then rt_owner b_methods R ih o && method_query_ok R ih o k
+          (* (an `if`, not `negb inside || …`: vm_compute is strict, and the hypotheses enumerate the
+             pre-order, which has exponentially many entries in a tower of diamonds) *)
+          (if inside then
+             acyclic_dec ih && world && (if meth then rt_owner b_methods R ih o && method_query_ok R ih o k
                         else rt_owner b_fields R ih o && field_query_ok R ih o k)
-              && res_eqb key3_eqb back (Ok (o, k))))
+              && res_eqb key3_eqb back (Ok (o, k))
+           else true)
         end) rts
     end
   end.
@@ -115,14 +120,14 @@ Definition check (c : case) : bool :=
   match c with
   | CDesc T d r => res_eqb str_eqb (map_desc (tbl_map_class T) d) r
   | CA M from to qs => forallb (check_a (remapper_a M (N.to_nat from) (N.to_nat to))) qs
-  | CB hyp M from to ps qa built qs ps' rts =>
+  | CB hyp coh M from to ps qa built qs ps' rts =>
       let ih := concat ps in
       forallb (check_a (remapper_a M (N.to_nat from) (N.to_nat to))) qa &&
-      forallb (fun e => bounded (default_fuel ih) ih (fst e)) ih &&
       match remapper_b M (N.to_nat from) (N.to_nat to) with
-      | Err => negb built && negb hyp && is_nil rts
+      | Err => negb built && negb hyp && negb coh && is_nil rts
       | Ok R => built && forallb (check_b R ih) qs &&
-                (negb hyp || (rows_valid M && tables_inj R && tables_inj (swap_b R) && names_valid R)) &&
+                (if coh then complete_world M (N.to_nat from) (N.to_nat to) else true) &&
+                (if hyp then acyclic_dec ih && rows_valid M && tables_inj R && tables_inj (swap_b R) && names_valid R else true) &&
                 check_rt M from to R ps ps' rts
       end
   end.
